@@ -143,6 +143,11 @@ theorem forces_exact_below_threshold (data : Nat → K × K) (fuel : Nat) (root 
   obtain ⟨θ₀, hpos, hf⟩ := forces_below_threshold data pi t (allPos_of_WF data t _ hwf (hcell ▸ hroot))
   exact ⟨θ₀, hpos, fun θ hθ => by rw [hf θ hθ, forces_zero_exact data pi t _ hwf hd]; rfl⟩
 
+/-- the square-free summary criterion of the model is the C++ test `std::max(hh, hw) / sqrt(D) < theta` for every
+    value `s` a correct `sqrt` can return on `D > 0` (`D = 0` is the explicit IEEE branch of `useSummary`) -/
+theorem summary_criterion_sqrt (θ D s : K) (b : Cell K) (hs : 0 < s) (hsD : s * s = D) (h1 : 0 ≤ b.hw) (h2 : 0 ≤ b.hh) :
+    useSummary θ b D = true ↔ stdMax b.hh b.hw / s < θ := useSummary_iff_sqrt θ D s b hs hsD h1 h2
+
 /-- **order independence**: for two insertion orders of the same points (`is ~ is'`) the root mass, the root centre of
     mass, the multiset of stored coordinates, and — without coincident points — the multiset of stored indices and the
     θ = 0 forces coincide -/
@@ -204,6 +209,13 @@ theorem fuel_suffices (data : Nat → K × K) (g : K) (n fuel : Nat) (root : Cel
     (buildIn data fuel root is).isSome :=
   fillList_isSome data g n fuel hn is (emptyLeaf root) [] (WF_emptyLeaf data root) (by simpa using hgap)
     (by simpa using hlev)
+
+/-- … and the fuel is only a bound: a larger one returns the same tree -/
+theorem fuel_irrelevant (data : Nat → K × K) (fuel extra : Nat) (root : Cell K) (is : List Nat) (t : Tree K)
+    (h : buildIn data fuel root is = some t) : buildIn data (fuel + extra) root is = some t := by
+  induction extra with
+  | zero => exact h
+  | succ e ih => exact fillList_mono data (fuel + e) is _ t ih
 
 /-- over ℚ, ℝ (any Archimedean ordered field) such a fuel exists for every positive gap -/
 theorem fuel_exists [Archimedean K] (data : Nat → K × K) (g : K) (hg : 0 < g) (root : Cell K) (is : List Nat)
